@@ -36,6 +36,7 @@ func TestCheck(t *testing.T) {
 	r.Rule("stack: seeded list of requests over 23 name classes (plain/blocked/allowed/10 rewrite kinds/response-blocked/NXDOMAIN/NODATA/REFUSED/ECS-dependent/hash-prefix) x 23 requesters " +
 		"(6 profiles with different blocking modes, filtered-response TTLs and custom rules, each via DoT SNI, DoH path and linked IP; 5 kinds of anonymous clients) x 14 qtypes x EDNS shapes x CHAOS debug; " +
 		"class = (name class, requester, qtype, qclass, edns); a case is non-trivial iff, in the concurrent phase, at least one other request was in flight while it was served (measured). " +
+		"cache-population: scripted histories of three different clients of one cache key on a shared instance (first with ECS option / without AD+DO, later without ECS / with AD, ECS-dependent and plain names, plus a control order), every response compared with the same request processed alone on a fresh stack; class = (variant, qtype, DO, servers); non-trivial iff the first request was a miss and a later one was served from the cache (measured by upstream calls). " +
 		"heap: seeded histories of 200 operations (build / wire-parse / constructor call / Clone / Dispose / drop / modify in place) over the full RR, SVCB-parameter and EDNS-option alphabet with slice lengths 0..8; " +
 		"class = hash of the (operation, message kind) sequence; non-trivial iff something was cloned or constructed after a Dispose while another message was live (and, for the 8-goroutine variant, goroutines really overlapped).")
 	r.Assume("upstream answers are a pure function of the question (plus the client subnet for the ECS-dependent name class), with one TTL for all records of an answer and lower-case owner names")
@@ -58,6 +59,14 @@ func TestCheck(t *testing.T) {
 	r.Require("stack_https_answers_with_params", 20)
 	r.Require("stack_cache_hits_sequential_lower_bound", 100)
 	r.Require("stack_written_responses_disposed", 1800)
+	// cache-population histories: every run must have evaluated later requesters
+	// of a cache key that another client populated, in each critical class
+	r.Require("stack_cachepop_pairs_total", 120)
+	r.Require("stack_cachepop_pairs_ecs-then-none", 30)
+	r.Require("stack_cachepop_pairs_ecsdep-ecs-then-none", 30)
+	r.Require("stack_cachepop_pairs_noad-then-ad", 30)
+	r.Require("stack_cachepop_first_answer_carried_its_ecs_option", 30)
+	r.Require("stack_cachepop_later_alone_answer_has_ad", 30)
 	r.Require("heap_clone_calls", 5000)
 	r.Require("heap_dispose_calls", 5000)
 	r.Require("heap_dispose_wire", 1000)
